@@ -157,6 +157,12 @@ class DConc:
     @staticmethod
     def _keq(a, b):
         """python-constant keys by value; symbolic keys (Val) only by syntactic identity of their term"""
+        if isinstance(a, VObj):
+            a = a.ref               # objects have concrete identity: compare the heap objects
+        if isinstance(b, VObj):
+            b = b.ref
+        if isinstance(a, Obj) or isinstance(b, Obj):
+            return a is b
         if isinstance(a, Val) or isinstance(b, Val):
             return isinstance(a, Val) and isinstance(b, Val) and hasattr(a, "t") and hasattr(b, "t") and a.t.eq(b.t)
         return a == b and type(a) is type(b)
